@@ -720,8 +720,9 @@ fn placement_matrix(sh: &mut Shard) {
     if sh.shard == 0 {
         for kind in 0..faults::JUMP_KINDS.len() {
             for source in 0..faults::JUMP_SOURCES.len() {
-                for target in 0..faults::JUMP_TARGETS.len() {
-                    let jc = faults::jump_case(kind, source, target);
+                for case in 0..faults::JUMP_TARGETS.len() * 3 {
+                    let (target, order) = (case / 3, case % 3);
+                    let jc = faults::jump_case(kind, source, target, order);
                     sh.eval();
                     sh.journal(&jc.text);
                     let inputs = json!({"kind": "jump-scope", "program": jc.text, "jump": jc.label, "row": jc.row, "same_scope": jc.same_scope});
